@@ -51,8 +51,8 @@ pub(crate) fn cell_for(c: &Case) -> CellDesc {
     cell.safety = if c.safety == 0 {
         SafetyDesc::touch(if c.ctor == 0 { 0 } else { 1 })
     } else if c.safety == 2 {
-        // per-pair distances far larger than the defaults (forearm and tool against the first environment object, wrist against the base)
-        SafetyDesc { to_env: 0.0, to_robot: 0.0, special: vec![((3, rs_opw_kinematics::kinematic_traits::ENV_START_IDX), 0.12), ((rs_opw_kinematics::kinematic_traits::J_TOOL, rs_opw_kinematics::kinematic_traits::ENV_START_IDX), 0.15), ((4, rs_opw_kinematics::kinematic_traits::J_BASE), 0.1)], mode: 0 }
+        // per-pair distances far larger than the defaults (forearm and tool against the first environment object, wrist against the base); tool against base exempt
+        SafetyDesc { to_env: 0.0, to_robot: 0.0, special: vec![((3, rs_opw_kinematics::kinematic_traits::ENV_START_IDX), 0.12), ((rs_opw_kinematics::kinematic_traits::J_TOOL, rs_opw_kinematics::kinematic_traits::ENV_START_IDX), 0.15), ((4, rs_opw_kinematics::kinematic_traits::J_BASE), 0.1), ((rs_opw_kinematics::kinematic_traits::J_TOOL, rs_opw_kinematics::kinematic_traits::J_BASE), rs_opw_kinematics::collisions::NEVER_COLLIDES)], mode: 0 }
     } else {
         SafetyDesc { to_env: 0.03, to_robot: 0.03, special: vec![], mode: 0 }
     };
